@@ -174,6 +174,11 @@ class C09(BaseCheck):
         roll = k.random()
         case = {'cold': k.random() < 0.03, 'api': k.choice(['str', 'str', 'bytes']), 'single': k.random() < 0.5,
                 'stdout_fault': None, 'ops': []}
+        # configuration knobs: the pint-backed Quantity mode (the pinned suite runs everything in both
+        # modes) and a host application that promotes warnings to errors
+        cfg = rng.stream(run_seed, 'config')
+        case['pint'] = cfg.random() < 0.15
+        case['warn_error'] = cfg.random() < 0.06
         if k.random() < 0.08:
             case['stdout_fault'] = {'kind': k.choice(['epipe', 'enospc', 'closed', 'ascii']), 'at': k.randrange(1, 4)}
         deliveries = []
@@ -317,10 +322,21 @@ class C09(BaseCheck):
 
     def execute(self, case):
         import warnings
+        if case.get('pint'):
+            self.hszinc.use_pint(True)       # process-wide flag; the child is discarded after the run
         with warnings.catch_warnings(record=True) as w:
-            warnings.simplefilter('always')
+            if case.get('warn_error') and case['class'] != 'scalar':
+                # for the scalar API the version is the caller's own argument, so a warning the caller
+                # asked to be raised is the caller's; for grids the version comes from the document
+                warnings.simplefilter('error')
+            else:
+                warnings.simplefilter('always')
             res = self._execute(case)
             res['stats']['probe.version_warnings'] = len(w)
+            if case.get('pint'):
+                res['stats']['config.pint_mode_runs'] = 1
+            if case.get('warn_error') and case['class'] != 'scalar':
+                res['stats']['config.warnings_as_errors_runs'] = 1
             return res
 
     def _execute(self, case):
@@ -431,6 +447,11 @@ class C09(BaseCheck):
             c = copy.deepcopy(case)
             c['api'] = 'str'
             yield c
+        for knob in ('pint', 'warn_error', 'cold'):
+            if case.get(knob):
+                c = copy.deepcopy(case)
+                c[knob] = False
+                yield c
         d = ds[0]
         if d.get('must_reject'):
             return        # the guarantee does not survive arbitrary text shrinking
